@@ -7,6 +7,7 @@ package shmipc
 import (
 	"bytes"
 	"fmt"
+	"os"
 	"strings"
 	"testing"
 	"time"
@@ -224,7 +225,13 @@ func genC20Sim(t *rapid.T) streamsCase {
 	for k := 0; k < npol; k++ {
 		st.S.CB = append(st.S.CB, cbPolicy{Take: rapid.SampledFrom([]int{0, 0, 1, 2, 7, 64}).Draw(t, "take")})
 	}
-	switch rapid.SampledFrom([]string{"open", "open", "ack-then-close", "server-closes-inside", "server-closer-thread"}).Draw(t, "end") {
+	ends := []string{"open", "open", "ack-then-close", "server-closes-inside", "server-closer-thread"}
+	if os.Getenv("VERIF_PROBE_D8") != "" {
+		ends = []string{"peer-close-no-ack"} // maintenance: search for probes of known finding D8
+	}
+	switch rapid.SampledFrom(ends).Draw(t, "end") {
+	case "peer-close-no-ack":
+		st.C.Prog = append(st.C.Prog, sOp{K: "close"})
 	case "ack-then-close":
 		// the peer closes only after the callback side acknowledged everything (keeps known finding D8 out of the way)
 		st.S.AckAt = total
